@@ -217,6 +217,33 @@ class FExc(Exception):
 
 TAGVAL = "c26-tag"
 
+# tags of every hashable kind ("every tag"); in particular strings that are attribute / dunder names, which a
+# cache that is not a plain empty dict (a module or instance __dict__, a class namespace) would already contain.
+# A case names its tag by index (`tagidx`); index 0 is the default tag.
+TAGS = [TAGVAL, "__name__", "__doc__", "__package__", "__loader__", "__spec__", "__dict__", "__class__", "__init__",
+        "__file__", "__builtins__", "__module__", "__weakref__", "__hash__", "", "tag", "_init_once_cache", "self",
+        None, 0, 1, -1, 2 ** 70, True, False, (), (1, "a"), ("__name__",), (None, (0, "")), 1.5, float("inf"),
+        b"tag", b"", frozenset([1, 2]), Ellipsis, int, len]
+
+
+def tag_value(idx):
+    return TAGS[idx or 0]
+
+
+def parking_tag(ctl, val):
+    """C implementation: an object equal to `val` (same hash, base-type equality) whose __hash__ is a scheduling
+    point; None when the type of val cannot be subclassed (then only the unscheduled `plain` runs use it)"""
+    base = type(val)
+    if base not in (str, int, tuple, float, bytes, frozenset):
+        return None
+
+    class PT(base):
+        def __hash__(self):
+            ctl.park("dict")
+            ctl.log("op", "dict")
+            return base.__hash__(self)
+    return PT(val)
+
 
 class Ctl:
     def __init__(self, n, timeout):
@@ -232,6 +259,7 @@ class Ctl:
         self.tid = {}            # thread ident -> t
         self.events = []         # (t, what, extra) in real order; only one thread runs at a time
         self.peek = lambda: None
+        self.tagidx = None
 
     def me(self):
         return self.tid.get(threading.get_ident())
@@ -358,23 +386,28 @@ def setup_py(ctl):
 
     api.allocate_lock = ILock
     ffi = cffi.FFI()
+    # the instrumented dict starts with exactly what the constructor put into the real cache (nothing, on the
+    # unchanged tree): the initial state is the implementation's, not the harness's
     cache = ICache()
+    dict.update(cache, ffi._init_once_cache)
     ffi._init_once_cache = cache
+    tagval = tag_value(ctl.tagidx)
+    missing = object()
 
     def peek():
-        v = dict.get(cache, TAGVAL)
-        if v is None:
+        v = dict.get(cache, tagval, missing)
+        if v is missing:
             return [0]
-        if v[0] is True:
+        if isinstance(v, tuple) and len(v) == 2 and v[0] is True:
             return [2, v[1] if isinstance(v[1], int) else -1]
         return [1]
     ctl.peek = peek
     f = make_f(ctl)
     tags = getattr(ctl, "tags", None)
     if tags:
-        return (lambda: ffi.init_once(f, TAGVAL if tags[ctl.me()] == 0 else "c26-tag-%d" % tags[ctl.me()])), \
+        return (lambda: ffi.init_once(f, tagval if tags[ctl.me()] == 0 else "c26-tag-%d" % tags[ctl.me()])), \
                (lambda: None)
-    return (lambda: ffi.init_once(f, TAGVAL)), (lambda: None)
+    return (lambda: ffi.init_once(f, tagval)), (lambda: None)
 
 
 def setup_c(ctl):
@@ -390,6 +423,10 @@ def setup_c(ctl):
         def __eq__(self, other):
             return self is other
     tag = Tag()
+    if ctl.tagidx:
+        tag = parking_tag(ctl, tag_value(ctl.tagidx))
+        if tag is None:
+            raise ValueError("tag %r cannot carry a scheduling point" % (tag_value(ctl.tagidx),))
     f = make_f(ctl)
 
     def probe():
@@ -409,6 +446,7 @@ def run_case(impl, prog, n, case, timeout):
     """case: dict(sched=[[t,o],...])  explicit visible schedule (py), or dict(decisions=[...]) (c / free choice).
     Returns dict(status, sched (model schedule actually followed), events, finals_impl)."""
     ctl = Ctl(n, timeout)
+    ctl.tagidx = case.get("tagidx")
     call, probe = (setup_py if impl == "py" else setup_c)(ctl)
     controllable = (lambda k: True) if impl == "py" else (lambda k: k not in (K_ACQUIRE, K_RELEASE))
     started = threading.Semaphore(0)
@@ -623,6 +661,44 @@ def run_case(impl, prog, n, case, timeout):
                 outcomes=[finished.get(t) for t in range(n)], probe=final_probe, unfinished=unfinished)
 
 
+PLAIN_OUTCOMES = (2, 1, 1)      # call 0: f raises; call 1: f returns 101; call 2: f would return 102
+
+
+def run_plain(impl, case):
+    """No scheduler, no instrumentation: three calls one after the other on an UNTOUCHED new FFI object (in-line
+    cffi.FFI() or _cffi_backend.FFI()) with the tag of the case.  As a schedule of the model this is the 3-thread
+    run in which each call finishes before the next starts; the events have the format `predicates` reads."""
+    tag = tag_value(case.get("tagidx"))
+    if impl == "py":
+        import cffi
+        ffi = cffi.FFI()
+    else:
+        import _cffi_backend
+        ffi = _cffi_backend.FFI()
+    events, outcomes = [], []
+    for t, o in enumerate(PLAIN_OUTCOMES):
+        def f(t=t, o=o):
+            events.append([t, "fenter", None, None])
+            if o == 1:
+                events.append([t, "fret", 100 + t, None])
+                return 100 + t
+            events.append([t, "fraise", None, None])
+            raise FExc()
+        try:
+            r = ffi.init_once(f, tag)
+            out = [1, r if isinstance(r, int) and not isinstance(r, bool) else -1]
+        except FExc:
+            out = [3]
+        except KeyError:
+            out = [2]
+        except BaseException as e:     # noqa
+            out = [4, type(e).__name__]
+        events.append([t, "finish", out, None])
+        outcomes.append(out)
+    return dict(status="ok", detail="", sched=[[t, o] for t, o in enumerate(PLAIN_OUTCOMES)], events=events,
+                outcomes=outcomes, probe=None, unfinished=[])
+
+
 def run_explore(n, case, timeout):
     """Model-free run of the Python implementation: the schedule is a prefix of choices [t, o] followed by
     'first choosable thread'; returns, per step, the choice made and the alternatives that existed, so that the
@@ -630,6 +706,7 @@ def run_explore(n, case, timeout):
     just failed is not choosable again until some thread has released a lock."""
     ctl = Ctl(n, timeout)
     ctl.tags = case.get("tags")
+    ctl.tagidx = case.get("tagidx")
     call, probe = setup_py(ctl)
     started = threading.Semaphore(0)
     threads = [threading.Thread(target=thread_main, args=(ctl, t, call, started), daemon=True) for t in range(n)]
@@ -808,6 +885,8 @@ def main(payload):
             continue
         if case.get("explore"):
             out.append(run_explore(case["n"], case, payload.get("timeout", 30)))
+        elif case.get("plain"):
+            out.append(run_plain(payload["impl"], case))
         else:
             out.append(run_case(payload["impl"], prog, case["n"], case, payload.get("timeout", 30)))
         if out[-1]["status"] == "timeout":
